@@ -27,6 +27,8 @@ THEOREMS = [
     "C06_gday_roundtrip", "C06_gmonth_roundtrip", "C06_g_reject_literal",
     "C06_string_roundtrip", "C06_normalizedstring_roundtrip", "C06_normalizedstring_reject",
     "C06_hex_roundtrip", "C06_hex_reject_literal", "C06_base64_roundtrip",
+    "C06_duration_roundtrip", "C06_duration_mixed_signs", "C06_decimal_roundtrip", "C06_decimal_same_number",
+    "C06_decimal_reject_literal", "C06_float_roundtrip",
 ]
 
 # ---------------------------------------------------------------------------------------------
@@ -511,9 +513,20 @@ def mutate(rng, s):
     return s[:i] + s[j:i:-1] + s[i:i + 1] + s[j + 1:] if j > i else s + s
 
 
+NONASCII_DIGITS = ["\u0660\u0661\u0662\u0663\u0664\u0665\u0666\u0667\u0668\u0669",      # Arabic-Indic
+                   "\uff10\uff11\uff12\uff13\uff14\uff15\uff16\uff17\uff18\uff19",      # fullwidth
+                   "\u0966\u0967\u0968\u0969\u096a\u096b\u096c\u096d\u096e\u096f"]      # Devanagari
+
+
 def variants(rng, name, s):
-    """other spellings that XSD allows for the same value (not necessarily accepted by the SDK)"""
-    out = [s + "\n", " " + s + " ", "\t" + s + "\r\n"]
+    """other spellings of the same value: XSD-legal ones (blanks, sign, zeros, case) and Python-only ones
+    (decimal digits of other scripts, underscores, exotic blanks) - the oracle knows which is which"""
+    out = [s + "\n", " " + s + " ", "\t" + s + "\r\n", "\x0c" + s, s + "\u00a0"]
+    tbl = rng.choice(NONASCII_DIGITS)
+    if any(c.isdigit() for c in s):
+        out += ["".join(tbl[int(c)] if c in "0123456789" else c for c in s)]
+        i = rng.choice([k for k, c in enumerate(s) if c in "0123456789"])
+        out += [s[:i] + tbl[int(s[i])] + s[i + 1:], s[:i + 1] + "_" + s[i + 1:]]
     if name in INT_BOUNDS or name in ("Decimal", "Float", "Double"):
         out += ["+" + s if not s.startswith("-") else s, ("-000" + s[1:]) if s.startswith("-") else "000" + s]
     if name in ("Time", "DateTime") and "." not in s:
@@ -709,8 +722,14 @@ def run(chk):
     except Exception as e:  # noqa
         chk.tie_broken("translator", f"{type(e).__name__}: {e}")
 
-    # ---- theorems
-    chk.theorems("props.C06", THEOREMS, ["theories/props/C06.vo", "theories/model/XsdObs.vo"])
+    # ---- theorems (only over a freshly generated Gen_XsdTables.v: after a translator abort the file on disk is
+    # stale, so the obligations count as not checked)
+    if info is None:
+        for n in THEOREMS:
+            chk.obligations.append((n, "not-checked", []))
+    else:
+        chk.theorems("props.C06", THEOREMS, ["theories/props/C06.vo", "theories/model/XsdObs.vo"])
+    common.coq_make(["theories/model/XsdObs.vo"])      # the correspondence must run even if a proof broke
 
     # ---- oracle: names
     oracle_names(chk)
@@ -781,7 +800,7 @@ def run(chk):
                         if msg:
                             chk.fail(f"C06:property-json:{name}", msg, {"kind": "property", "type": name, "fields": repr(f)})
         # ---------------- literals: parse + recogniser
-        lits = [c["literal"] for c in corpus_cases if c.get("type") == name]
+        lits = [c["literal"] for c in corpus_cases if c.get("type") == name] + list(EXOTIC)
         for k in range(n_literals):
             lits.append(gen_literal(rng, name, printed[name]))
         for lit in lits:
